@@ -37,6 +37,7 @@ type c15Req struct {
 	Keep  int    `json:"ka,omitempty"`
 	GGUF  int    `json:"g,omitempty"`
 	Strm  bool   `json:"s,omitempty"`
+	Quit  int    `json:"q,omitempty"` // the client gives up (closes the connection) after this many microseconds; 0 = never
 }
 
 type c15Case struct {
@@ -71,6 +72,9 @@ func c15Gen(t *rapid.T) c15Case {
 			r.Keep = rapid.IntRange(0, len(c15Keep)-1).Draw(t, "keep")
 			r.GGUF = rapid.IntRange(0, 2).Draw(t, "gguf")
 			r.Strm = rapid.Bool().Draw(t, "stream")
+			if rapid.IntRange(0, 4).Draw(t, "quits") == 0 {
+				r.Quit = rapid.SampledFrom([]int{1, 50, 200, 1000, 3000}).Draw(t, "quit_us")
+			}
 			rs = append(rs, r)
 		}
 		c.Clients = append(c.Clients, rs)
@@ -189,7 +193,8 @@ func c15Run(c c15Case) (classes []string, nontrivial bool, err error) {
 	if herr != nil {
 		return nil, false, nil
 	}
-	do := func(method, path string, body any) (int, []byte) {
+	var outstanding, served, abandoned atomic.Int64
+	doQ := func(method, path string, body any, quitUs int) (int, []byte) {
 		var rd io.Reader = bytes.NewReader(nil)
 		switch b := body.(type) {
 		case nil:
@@ -201,11 +206,41 @@ func c15Run(c c15Case) (classes []string, nontrivial bool, err error) {
 		}
 		rctx, rcancel := context.WithCancel(context.Background())
 		defer rcancel() // as a connection: the request context ends when the handler has returned
+		if quitUs > 0 {
+			tm := time.AfterFunc(time.Duration(quitUs)*time.Microsecond, rcancel) // the client goes away mid-request
+			defer tm.Stop()
+		}
 		req := httptest.NewRequest(method, path, rd).WithContext(rctx)
 		rw := &c04Recorder{ResponseRecorder: httptest.NewRecorder()}
-		h.ServeHTTP(rw, req)
-		return rw.Code, rw.Body.Bytes()
+		if quitUs == 0 {
+			outstanding.Add(1)
+			h.ServeHTTP(rw, req)
+			outstanding.Add(-1)
+			served.Add(1)
+			return rw.Code, rw.Body.Bytes()
+		}
+		// A client that gives up does not wait for the handler: a request cancelled while it is queued gets no reply
+		// from the scheduler at all (allowed: "a cancelled request receives at most one") and its handler never returns.
+		fin := make(chan struct{})
+		go func() {
+			defer close(fin)
+			h.ServeHTTP(rw, req)
+			served.Add(1)
+		}()
+		select {
+		case <-fin:
+			return rw.Code, rw.Body.Bytes()
+		case <-rctx.Done():
+		}
+		select {
+		case <-fin:
+			return rw.Code, rw.Body.Bytes()
+		case <-time.After(2 * time.Millisecond):
+			abandoned.Add(1)
+			return -1, nil // gone; the response, if any, is never looked at
+		}
 	}
+	do := func(method, path string, body any) (int, []byte) { return doQ(method, path, body, 0) }
 	// the models every client uses exist before the concurrent phase
 	for i, name := range c15Models {
 		g := c04GGUFs[i%len(c04GGUFs)]
@@ -249,15 +284,15 @@ func c15Run(c c15Case) (classes []string, nontrivial bool, err error) {
 					if keep != nil {
 						req["keep_alive"] = keep
 					}
-					code, body = do("POST", "/api/generate", req)
+					code, body = doQ("POST", "/api/generate", req, r.Quit)
 				case "chat":
 					req := map[string]any{"model": name, "messages": []map[string]string{{"role": "user", "content": "hi you"}}, "stream": r.Strm}
 					if keep != nil {
 						req["keep_alive"] = keep
 					}
-					code, body = do("POST", "/api/chat", req)
+					code, body = doQ("POST", "/api/chat", req, r.Quit)
 				case "embed":
-					code, body = do("POST", "/api/embed", map[string]any{"model": name, "input": "some text"})
+					code, body = doQ("POST", "/api/embed", map[string]any{"model": name, "input": "some text"}, r.Quit)
 				case "unload":
 					code, body = do("POST", "/api/generate", map[string]any{"model": name, "keep_alive": 0})
 				case "ps":
@@ -309,6 +344,12 @@ func c15Run(c c15Case) (classes []string, nontrivial bool, err error) {
 					g := c04GGUFs[r.GGUF%len(c04GGUFs)]
 					code, body = do("POST", "/api/blobs/"+frDigest(g), g)
 				}
+				if code == -1 {
+					mu.Lock()
+					cls["client_gave_up_unanswered"] = true
+					mu.Unlock()
+					continue
+				}
 				if code >= 600 || code == 0 && r.Kind != "ps" {
 					fail("%s answered with status %d: %s", r.Kind, code, body)
 				}
@@ -321,7 +362,25 @@ func c15Run(c c15Case) (classes []string, nontrivial bool, err error) {
 			}
 		}(ci, reqs)
 	}
-	wg.Wait()
+	waitDone := make(chan struct{})
+	go func() { wg.Wait(); close(waitDone) }()
+	// Liveness: a workload takes a fraction of a second. If requests are still outstanding after a long real-time budget
+	// AND no goroutine of the process can run (two dumps, seconds apart, nothing running or runnable and no request
+	// served in between), the server has wedged: every remaining request would wait for ever.
+	for waiting := true; waiting; {
+		select {
+		case <-waitDone:
+			waiting = false
+		case <-time.After(20 * time.Second):
+			before := served.Load()
+			s1, ok1 := c15Parked()
+			time.Sleep(3 * time.Second)
+			s2, ok2 := c15Parked()
+			if ok1 && ok2 && s1 == s2 && served.Load() == before && outstanding.Load() > 0 {
+				return nil, true, fmt.Errorf("the server wedged: %d request(s) have been waiting for more than 20 s and no goroutine can run any more; ollama goroutines are parked at: %s", outstanding.Load(), s2)
+			}
+		}
+	}
 	// wind down: unload everything, let the scheduler go idle
 	for _, name := range c15Models {
 		do("POST", "/api/generate", map[string]any{"model": name, "keep_alive": 0})
@@ -356,6 +415,42 @@ func c15Run(c c15Case) (classes []string, nontrivial bool, err error) {
 	}
 	sort.Strings(classes)
 	return classes, nontrivial, firstErr
+}
+
+// c15Parked summarises where ollama's goroutines are parked; ok=false if any goroutine (other than the caller) is
+// running or runnable, i.e. the process is merely slow.
+func c15Parked() (string, bool) {
+	buf := make([]byte, 8<<20)
+	buf = buf[:runtime.Stack(buf, true)]
+	ok := true
+	var parts []string
+	for i, g := range strings.Split(string(buf), "\n\n") {
+		if i == 0 {
+			continue // the caller
+		}
+		head, _, _ := strings.Cut(g, "\n")
+		a, b := strings.Index(head, "["), strings.Index(head, "]")
+		if a < 0 || b < a {
+			continue
+		}
+		state := head[a+1 : b]
+		if strings.HasPrefix(state, "running") || strings.HasPrefix(state, "runnable") {
+			ok = false
+		}
+		for _, l := range strings.Split(g, "\n") {
+			if strings.HasPrefix(l, "github.com/ollama/ollama/server.(") && !strings.Contains(l, ".c15") {
+				fn := l[len("github.com/ollama/ollama/"):]
+				if j := strings.LastIndex(fn, "("); j > 0 {
+					fn = fn[:j]
+				}
+				st, _, _ := strings.Cut(state, ",")
+				parts = append(parts, fn+"@"+strings.TrimSpace(st))
+				break
+			}
+		}
+	}
+	sort.Strings(parts)
+	return strings.Join(parts, "; "), ok
 }
 
 // ---- race reports. The binary runs with GORACE="halt_on_error=0 log_path=<prefix>": the detector appends every report
